@@ -3,7 +3,7 @@
    repeated in coq/pins/C10.v and re-checked on every run. *)
 From Coq Require Import List Bool Arith.
 From GV Require Import Base.Outcome Base.AMap Model.GState Model.Creation Model.Query
-     Model.Components Model.Scc Spec.ReachDef Spec.CompSpec Proofs.ReachOk Proofs.ComponentsOk Proofs.PartitionsOk.
+     Model.Components Model.Scc Spec.ReachDef Spec.CompSpec Proofs.ReachOk Proofs.ComponentsOk Proofs.PartitionsOk Proofs.SccOk.
 Import ListNotations.
 
 Section C10.
@@ -75,6 +75,18 @@ Section C10.
     weakly_connected_components teqb g = Ok cs ->
     is_component_partition (g_nodes g) (reach (wstep teqb g)) cs.
   Proof. exact (weakly_connected_components_checked teqb teqb_spec). Qed.
+
+  (* strongly_connected_components (the iterative preorder / low-link loop), for EVERY
+     neighbour iteration order [ord] and every graph state, every run that returns: the
+     emitted sets are non-empty, no node occurs twice (the sets are pairwise disjoint) and
+     every node of the graph is in one of them.  (Which nodes share a set is established per
+     generated case by C10_checker_sound, not by an unbounded theorem.) *)
+  Theorem C10_scc_partition : forall (ord : list T -> list T) (g : gstate) cs,
+    strongly_connected_components teqb ord g = Ok cs ->
+    (forall c, In c cs -> c <> []) /\
+    NoDup (concat cs) /\
+    (forall x, In x (get_all_node_names g) -> In x (concat cs)).
+  Proof. exact (scc_partition teqb teqb_spec). Qed.
 
   Theorem C10_node_component : forall (g : gstate) x s,
     node_connected_component teqb g x = Ok s ->
